@@ -35,6 +35,7 @@ import enum
 import os
 import sys
 import threading
+import time
 
 _PARENT_PID = os.getpid()
 LIMIT = 3
@@ -71,6 +72,46 @@ class Box:
             self.x -= 1
         self.items.append(y)
         return self.x
+
+
+class Crate:
+    """Pickling hooks implemented in (instrumented) code of the module under test."""
+
+    tag = "crate"
+
+    def __init__(self, x: int) -> None:
+        self.x = x
+        self.items = [x]
+
+    def push(self, y: int) -> int:
+        if y > 1:
+            self.x += y
+        self.items.append(y)
+        return self.x
+
+    def __getstate__(self) -> dict:
+        if self.x > 1:
+            return {"x": self.x, "items": list(self.items)}
+        return {"x": 0, "items": []}
+
+    def __setstate__(self, state: dict) -> None:
+        if state["x"] >= 0:
+            self.x = state["x"]
+        self.items = state["items"]
+
+
+class QuotaError(Exception):
+    """Two-argument constructor, kept picklable by a __reduce__ of its own; carries a Crate."""
+
+    def __init__(self, crate: Crate, limit: int) -> None:
+        super().__init__(f"quota {limit} exceeded")
+        self.crate = crate
+        self.limit = limit
+
+    def __reduce__(self):
+        if self.limit > 1:
+            return (QuotaError, (self.crate, self.limit))
+        return (QuotaError, (self.crate, 0))
 
 
 def rec(a: int) -> int:
@@ -111,8 +152,19 @@ def fail_coded(a: int) -> int:
     raise CodeError(a, "coded")
 
 
+def fail_quota(a: int) -> int:
+    raise QuotaError(Crate(a), 3)
+
+
 def leave(a: int) -> int:
     raise SystemExit(a)
+
+
+def pause(a: int) -> int:
+    """Terminates, but only after a / 10 seconds spent in uninstrumented code."""
+    if a > 0:
+        time.sleep(a / 10)
+    return a
 
 
 def spin(a: int) -> int:
@@ -138,7 +190,11 @@ OP_CODE = {
     "recT": "rec(5)", "recF": "rec(0)", "obj": "Box(3)", "flt": "quarter(3)", "coll": "pair(2)",
     "enum": "pick(1)", "prt": "shout(1)", "exc": "fail_builtin(1)", "excS": "fail_own(1)",
     "excU": "fail_coded(1)", "exit": "leave(3)", "spin": "spin(0)", "nap": "nap(0)", "die": "die(1)",
+    "objR": "Crate(3)", "excR": "fail_quota(2)",
 }
+OBJ_OPS = ("obj", "objR")
+# one time unit of the model in seconds (slow family); a "slow" statement sleeps SLOW_DUR units
+UNIT = 0.5
 
 FACTORY_SUTS = {
     "vsx_bank": '''
@@ -502,6 +558,20 @@ def project(result) -> dict:
     }
 
 
+def _untraced():
+    """Pickling hooks of the SUT are instrumented code; outside a test execution the tracer of the
+    import hook is stopped and would abort this thread: switch tracing off meanwhile."""
+    import contextlib  # noqa: PLC0415
+
+    from pynguin.instrumentation.machinery import InstrumentationFinder  # noqa: PLC0415
+
+    stack = contextlib.ExitStack()
+    for finder in sys.meta_path:
+        if isinstance(finder, InstrumentationFinder):
+            stack.enter_context(finder.subject_properties.instrumentation_tracer.temporarily_disable())
+    return stack
+
+
 def roundtrips(result) -> list[bool]:
     """Input classification for signatures: can pickle rebuild the exception objects?"""
     import pickle  # noqa: PLC0415
@@ -509,11 +579,12 @@ def roundtrips(result) -> list[bool]:
     out = []
     if isinstance(result, Failed):
         return out
-    for _, e in sorted(result.exceptions.items()):
-        try:
-            out.append(type(pickle.loads(pickle.dumps(e))) is type(e))  # noqa: S301
-        except Exception:  # noqa: BLE001
-            out.append(False)
+    with _untraced():
+        for _, e in sorted(result.exceptions.items()):
+            try:
+                out.append(type(pickle.loads(pickle.dumps(e))) is type(e))  # noqa: S301
+            except Exception:  # noqa: BLE001
+                out.append(False)
     return out
 
 
@@ -539,24 +610,33 @@ def describe(proj: dict) -> dict:
 # ----------------------------------------------------------------------------------------------
 # building test cases
 # ----------------------------------------------------------------------------------------------
-def build_shape(prog: list[dict]):
-    """Abstract shape -> real libcst test case (statement k binds var_k)."""
+def build_shape(prog: list[dict], slow_seconds: float = 0.0):
+    """Abstract shape -> real libcst test case: statement k is the assignment ``var_k = <rhs>``
+    (bnd) or the expression statement ``<rhs>`` that binds nothing.  A "slow" statement sleeps
+    *slow_seconds* (the time scale is a parameter of the concretisation)."""
     import pynguin.testcase.testcase as tc  # noqa: PLC0415
 
     t = tc.TestCase()
     last_obj = None
     for k, st in enumerate(prog):
         op = st["op"]
+        bound = bool(st.get("bnd", True))
         if op == "lit":
             rhs = str(7 + k)
         elif op == "mut":
             rhs = f"var_{last_obj}.push(2)"
+        elif op == "slow":
+            assert slow_seconds > 0, "slow statement without a time scale"
+            rhs = f"pause({round(slow_seconds * 10)})"
         else:
             rhs = OP_CODE[op]
-        if op == "obj":
+        if op in OBJ_OPS and bound:
             last_obj = k
-        t.add_statement(tc.Statement(node=cst.parse_statement(f"var_{k} = {rhs}"),
-                                     bound_variable=f"var_{k}", bound_type=int))
+        if bound:
+            t.add_statement(tc.Statement(node=cst.parse_statement(f"var_{k} = {rhs}"),
+                                         bound_variable=f"var_{k}", bound_type=int))
+        else:
+            t.add_statement(tc.Statement(node=cst.parse_statement(rhs), bound_variable=None, bound_type=None))
     return t
 
 
@@ -677,18 +757,23 @@ def run_sub_only(sub, tests: list, obs: str) -> list:
     return rs
 
 
+def _norm(prog: list[dict]) -> list[dict]:
+    return [{"op": s["op"], "att": s["att"], "bnd": bool(s.get("bnd", True))} for s in prog]
+
+
 def event(kind: str, cfg: str, obs: str, mode: str, prog: list[dict], det: bool, cmp: list[str],
-          pi: dict, ps: dict, label: str) -> dict:
-    return {"kind": kind, "cfg": cfg, "obs": obs, "mode": mode, "prog": prog, "model": bool(prog),
+          pi: dict, ps: dict, label: str, tm: tuple[int, int] = (3, 1)) -> dict:
+    """tm: (maximum timeout, time per statement) of both executors in the time units of the model."""
+    return {"kind": kind, "cfg": cfg, "obs": obs, "mode": mode, "prog": _norm(prog), "model": bool(prog),
             "det": bool(det), "cmp": cmp, "i": pi, "s": ps, "label": label,
-            "path": [], "mpath": []}
+            "path": [], "mpath": [], "tm": [int(tm[0]), int(tm[1])]}
 
 
 def batch_event(label: str, path: list, mpath: list) -> dict:
     empty = {"to": False, "err": "", "ex": [], "ln": [], "co": [], "bt": [], "bf": [], "at": [], "vt": []}
     return {"kind": "batch", "cfg": "A", "obs": "trace", "mode": "batch", "prog": [], "model": False,
             "det": False, "cmp": [], "i": empty, "s": empty, "label": label,
-            "path": path, "mpath": mpath}
+            "path": path, "mpath": mpath, "tm": [3, 1]}
 
 
 def quiet() -> None:
@@ -702,23 +787,27 @@ def quiet() -> None:
 
 
 def run_scenario(args) -> dict:
-    """One protocol scenario of MC_SubprocessExec (proto) on the real executors.  If a terminating,
-    deterministic member times out in either executor (machine load) the scenario is repeated with
-    doubled timeouts; the last attempt is recorded."""
-    beh, workdir, per, maxt, idx = args
+    """One scenario of MC_SubprocessExec (proto / slow family) on the real executors.  If a
+    deterministic member for which the model expects no timeout times out in either executor
+    (machine load) the scenario is repeated with the whole time scale doubled - both timeout
+    settings AND the sleeps of "slow" statements, so that every attempt is the same abstract
+    scenario (sleep between time per statement and budget); the last attempt is recorded.
+    *slow* is the number of seconds a "slow" statement sleeps at scale 1 (0: none in the family)."""
+    beh, workdir, per, maxt, idx, slow = args
     quiet()
     wd = Path(workdir) / f"sc{idx}-{os.getpid()}"
     out: dict = {}
     for attempt in range(3):
-        with Env(SHAPE_MODULE, SHAPE_SUT, wd, per * 2 ** attempt, maxt * 2 ** attempt) as env:
-            tests = [build_shape(p) for p in beh["tests"]]
+        scale = 2 ** attempt
+        with Env(SHAPE_MODULE, SHAPE_SUT, wd, per * scale, maxt * scale) as env:
+            tests = [build_shape(p, slow * scale) for p in beh["tests"]]
             ri, rs, path = run_both(env.inproc, env.sub, tests, "trace", single=False)
             out = {"pi": [project(r) for r in ri], "ps": [project(r) for r in rs], "path": path,
-                   "attempts": attempt + 1}
+                   "attempts": attempt + 1, "scale": scale}
         spurious = False
         for k, prog in enumerate(beh["tests"]):
             ops = [s["op"] for s in prog]
-            if "die" in ops or "spin" in ops or "nap" in ops:
+            if "die" in ops or beh["exp"][k]["timeout"]:
                 continue
             if out["pi"][k]["to"] or out["ps"][k]["to"]:
                 spurious = True
